@@ -18,7 +18,7 @@ use std::collections::{BTreeMap, BTreeSet, HashSet};
 pub fn build_family<W: World>(cfg: &Cfg, alpha_name: &str, n: usize, cap: usize, out: &mut Outcome, cur: Option<&str>) -> Vec<Vec<Op>> {
     let a = alpha::by_name(alpha_name);
     let lim = Limits { max_states: 5_000_000, max_secs: 120.0, max_viol: 4 };
-    let o = engine::run_e1::<W>(cfg, &E1Params { n, d: 1, concrete_layers: 0, collect_family: true }, &*a, &lim, cur, None);
+    let o = engine::run_e1::<W>(cfg, &E1Params { n, d: 1, concrete_layers: 0, collect_family: true, from: 0 }, &*a, &lim, cur, None);
     out.violations.extend(o.violations);
     out.viol_count += o.viol_count;
     let fam = o.family;
